@@ -7,7 +7,9 @@ from props import btreelib as bt
 PROPS = "Properties_C01"
 RULE = ("random histories of insert/remove/find/clear (+ allocation scripts in ~12% of them) at page sizes "
         "64/128/256/4096 over key universes sized for heights 1-4, phases biased to grow/shrink/churn with "
-        "ascending/descending/random key patterns, walk (begin..end) after every op for small universes; "
+        "ascending/descending/random key patterns, walk (begin..end) after every op for small universes; thorough adds "
+        "every history of 4 insert/remove ops over 5 keys on top of a two-level tree at page size 64 (10^4 cases) and bulk "
+        "phases of 70 000 keys at page size 4096; "
         "non-trivial = history with at least 5 ops; distinct case strings counted")
 ASSUMPTIONS = [
     "comparator = total preorder induced by an integer rank (the driver compares int keys); elements with equal "
@@ -43,7 +45,7 @@ def gen(ctx, seed, tier):
         cases += exhaustive_small(5, 6)
         # bulk phases at the default page size: 70 000 ascending / pseudo-random keys, then removal of most
         for mode in ("asc", "rnd"):
-            h = bt.Hist(r, 4096)
+            h = bt.Hist(r, 4096, flags="n")   # model only: the list spec is quadratic in the size
             ks = list(range(70000))
             if mode == "rnd":
                 r.shuffle(ks)
@@ -88,6 +90,32 @@ def exhaustive_small(nkeys, depth):
     # 10^depth is too many: depth 4 exhaustively (10^4), deeper ones sampled by the random generator
     depth = min(depth, 4)
     rec([])
+    return out
+
+
+def targeted(ctx):
+    """directed histories for the search: fill and drain in ascending / descending / inside-out order at every page
+    size (every split, rotate and merge case fires at depth >= 2), with a walk and lookups of all keys in between"""
+    out = []
+    for page, n in ((64, 150), (128, 400), (256, 1000), (4096, 1200)):
+        keys = list(range(1, n + 1))
+        orders = [keys, keys[::-1], [keys[(n // 2 + (-1) ** k * ((k + 1) // 2)) % n] for k in range(n)]]
+        for ins in orders:
+            for rem in orders:
+                h = bt.Hist(None, page)
+                for j, k in enumerate(ins):
+                    h.ins(k)
+                    if j % max(1, n // 60) == 0:
+                        h.op("w")
+                h.op("w")
+                for k in keys[::max(1, n // 40)]:
+                    h.op("f%d" % k)
+                for j, k in enumerate(rem):
+                    h.rem(k)
+                    if j % max(1, n // 60) == 0:
+                        h.op("w")
+                h.op("w")
+                out.append(h.line())
     return out
 
 
